@@ -48,7 +48,8 @@ has no effect on the outcome class unless building the message itself raises).
 * `callMethod v m args`  : a method call on an object (`self.query(text)`, `value.to_eng_string()`, `s.__sqlrepr__(db)`);
 * `isSub c C`            : is the class named `c` a subclass of (or equal to) what the source calls `C`;
 * `upper c`              : the full upper-case mapping of one character (`str.upper` is per character in CPython);
-* `reprOf v`             : `repr(v)` of a value that is not an `int` (a `float`).
+* `reprOf v`             : `repr(v)` of a value that is not an `int` (a `float`);
+* `strOfObj v`           : `str(v)` of a value that is neither `str` nor `int` (a `memoryview`).
 `stuck` = outside the fragment (a `TypeError` / `NameError` of the real interpreter, or a construct the semantics does
 not cover): a theorem `translated = model` shows in particular that this never happens.
 Locals are numbered in order of first binding, parameters first: renaming a local does not change the translation.
@@ -102,6 +103,7 @@ structure Iface where
   isSub : String → String → Bool
   upper : Nat → Str
   reprOf : Val → R Str
+  strOfObj : Val → R Str
 
 def aget {κ α : Type} [BEq κ] (k : κ) : List (κ × α) → Option α
   | [] => Option.none
@@ -390,12 +392,18 @@ def pyAdd (I : Iface) : Val → Val → R Val
 @[simp] theorem pyAdd_str_obj (I : Iface) (a : Str) (c : String) (fs : List (String × Val)) :
     pyAdd I (.str a) (.obj c fs) = I.callMethod (.obj c fs) "__radd__" [.str a] := rfl
 
-/-- the builtins `repr`, `int`, `len`; every other name is a module-level function / class -/
+/-- the builtins `repr`, `str`, `int`, `len`; every other name is a module-level function / class -/
 def callFn (I : Iface) (f : String) (args : List Val) (kw : List (String × Val)) : R Val :=
   if f = "repr" then
     match args, kw with
     | [.int i], [] => .ok (.str (Lex.renderInt i))
     | [v], [] => (I.reprOf v).bind fun s => .ok (.str s)
+    | _, _ => .stuck
+  else if f = "str" then
+    match args, kw with
+    | [.str s], [] => .ok (.str s)
+    | [.int i], [] => .ok (.str (Lex.renderInt i))
+    | [v], [] => (I.strOfObj v).bind fun s => .ok (.str s)
     | _, _ => .stuck
   else if f = "int" then
     match args, kw with
